@@ -9,7 +9,7 @@ an ended action, no stale notification queued anywhere in the tree, the final ho
 iff the action ended, reset returns the freshly built state.  The control flow of SequenceAction is
 proved equal to the documented loop for any number of children; counterexample theorems (kernel
 evaluation of the model in the unrepaired configuration) for the defects repaired by
-patches/C17-01…05, each paired with the theorem that the repaired configuration behaves.
+patches/C17-01…05 (01–04 with counterexamples), each paired with the theorem that the repaired configuration behaves.
 
 What is NOT closed is listed at the end as `-- OPEN`.
 -/
@@ -195,7 +195,7 @@ def tl : List T → TL
   | [] => .nil
   | t :: ts => .cons t (tl ts)
 def comp (id : Nat) (k : Kind) (cs : List T) (tmo : Option Nat := none) : T := .node { id := id, kind := k, tmo := tmo } (tl cs)
-def old : Cfg := { fixPar := false, fixReplay := false, fixFin := false, fixBlk := false, fixRep := false }
+def old : Cfg := { fixPar := false, fixReplay := false, fixFin := false, fixBlk := false }
 def rootSt (r : T × G) : St := r.1.data.st
 def rootFins (r : T × G) : List (Bool × St) := r.2.log.filterMap fun e => match e with | .rootFin s _ st => some (s, st) | _ => none
 def rootBlks (r : T × G) : List St := r.2.log.filterMap fun e => match e with | .rootBlk _ st => some st | _ => none
@@ -277,17 +277,14 @@ theorem C17_sequence_header_literal_differs :
     eval (comp 0 (.seq .all) [leaf 1 (.func false none)]) = some (false, 2) := by
   decide +kernel
 
-/-- RepeatAction(times = 0): `for (i = 0; i < 0; …)` runs the child zero times; the unrepaired code
-computes `times - 1` in size_t and calls the child again and again (here: 5 calls in 4 passes, still
-running); repaired (patches/C17-05) it finishes at once with success and never calls the child. -/
-theorem C17_repeat_zero_counterexample :
-    fnCalls (run (comp 0 (.repeat_ 0 .noBreak) [leaf 1 (.func true none)]) { cfg := old } [.calls [.start], .pass, .pass, .pass]) = [1, 1, 1, 1, 1] ∧
-    rootSt (run (comp 0 (.repeat_ 0 .noBreak) [leaf 1 (.func true none)]) { cfg := old } [.calls [.start], .pass, .pass, .pass]) = .running := by
-  decide +kernel
-theorem C17_repeat_zero_repaired :
-    fnCalls (run (comp 0 (.repeat_ 0 .noBreak) [leaf 1 (.func true none)]) {} [.calls [.start], .pass]) = [] ∧
-    rootFins (run (comp 0 (.repeat_ 0 .noBreak) [leaf 1 (.func true none)]) {} [.calls [.start], .pass]) = [(true, .finished)] ∧
-    eval (comp 0 (.repeat_ 0 .noBreak) [leaf 1 (.func true none)]) = some (true, 7) := by
+/-- RepeatAction(times = 0): the header's `for (i = 0; i < times; …)` would run the child zero times; the
+code computes `times - 1` in size_t and repeats "for ever" (here: 5 calls in 4 passes, still running).
+The unit test RepeatAction.FunctionActionForeverNoBreak relies on that, so this is a reading of the
+documentation, not a defect; the evaluator follows the test. -/
+theorem C17_repeat_zero_means_forever :
+    fnCalls (run (comp 0 (.repeat_ 0 .noBreak) [leaf 1 (.func true none)]) {} [.calls [.start], .pass, .pass, .pass]) = [1, 1, 1, 1, 1] ∧
+    rootSt (run (comp 0 (.repeat_ 0 .noBreak) [leaf 1 (.func true none)]) {} [.calls [.start], .pass, .pass, .pass]) = .running ∧
+    eval (comp 0 (.repeat_ 0 .noBreak) [leaf 1 (.func true none)]) = none := by
   decide +kernel
 
 /-! ### OPEN (stated, not proved; carried by the executable model + correspondence + monitors)
